@@ -444,8 +444,8 @@ fn decode_mutations<E>(
         // Get the solution that these outputs came from.
         let s = &mut set.solutions[output.solution_index as usize];
 
-        // Set to check for duplicate mutations.
-        let mut mut_set = HashSet::new();
+        // Set to check for duplicate mutations, including the ones the solution already has.
+        let mut mut_set: HashSet<Key> = s.state_mutations.iter().map(|m| m.key.clone()).collect();
 
         // For each memory output decode the mutations and apply them.
         for data in output.data {
